@@ -161,7 +161,7 @@ macro_rules! thread_body {
 
 impl Runner {
     fn new_world<S: Service + 'static>(&mut self, p: &ConcProg) -> World<S> {
-        let (config, prefix) = self.config();
+        let (config, prefix) = self.config_for(&p.cfg);
         let probe = p.nreq == 0 || p.nresp == 0;
         static WORLDS: std::sync::atomic::AtomicU64 = std::sync::atomic::AtomicU64::new(0);
         let k = WORLDS.fetch_add(1, std::sync::atomic::Ordering::Relaxed);
